@@ -123,8 +123,14 @@ package extension
 // Implicit eviction priority 0 when the annotation is missing; 0 together with an error when it is invalid. A value
 // outside the int32 range is invalid, never wrapped: every integer conversion carries an overflow obligation
 // (option arith checked), discharged by the range of a successful 32-bit strconv.ParseInt (extern in /verif/lib/C12.spec).
+// podEvictionPrio: the parsed annotation (c12_int / c12_intOK are the uninterpreted decoder of strconv.ParseInt, see
+// /verif/lib/C12.spec), the implicit 0 when the annotation is unset or invalid.
+//@ spec func evictionPrioUnset(pod *corev1.Pod) bool = pod == nil || pod.ObjectMeta.Annotations == nil || !has(pod.ObjectMeta.Annotations, AnnotationPodEvictionPriority)
+//@ spec func podEvictionPrio(pod *corev1.Pod) int32 = evictionPrioUnset(pod) ? 0 : (c12_intOK(pod.ObjectMeta.Annotations[AnnotationPodEvictionPriority], 10, 32) ? int32(c12_int(pod.ObjectMeta.Annotations[AnnotationPodEvictionPriority], 10, 32)) : 0)
 //@ func GetPodEvictionPriority [C11]
 //@   option arith checked
+//@   ensures #fn: result0 == podEvictionPrio(pod)
+//@   ensures #err: result1 != nil <==> !evictionPrioUnset(pod) && !c12_intOK(pod.ObjectMeta.Annotations[AnnotationPodEvictionPriority], 10, 32)
 //@   ensures #unset: pod == nil || pod.ObjectMeta.Annotations == nil || !has(pod.ObjectMeta.Annotations, AnnotationPodEvictionPriority) ==> result0 == 0 && result1 == nil
 //@   ensures #invalid: result1 != nil ==> result0 == 0
 //@   modifies nothing
